@@ -210,6 +210,10 @@ class File:
                 L.append('data %d 0 0 skipped' % i)
             else:
                 L.append('data %d 0 %d %s' % (i, nb, hexblob(v.data)))
+                if self.isrec(v) and 1 <= self.numrecs <= 64:       # every record read separately
+                    per = self.nel_per_rec(v) * XSZ[v.typ]
+                    for r in range(self.numrecs):
+                        L.append('rec %d %d 0 %s' % (i, r, hexblob(v.data[r * per:(r + 1) * per])))
         L.append('close 0')
         return L
 
@@ -393,3 +397,36 @@ def selfref_values(f):
 def var_list_offset(f):
     """byte offset of the var_list in the header of f"""
     return len(f.header()) - len(f.lst(TAG_VAR, list(enumerate(f.vars)), lambda p: f.var(p[0], p[1]), 'vars'))
+
+
+def recsize_family(rng, full=False):
+    """targeted family for the open-time record-size rule: EXACTLY ONE record variable (recsize = its
+    UNPADDED size) x every external type x 1..5 elements per record x 0..2 fixed-size variables x
+    2..4 records x the three formats; and the control with TWO record variables (recsize = sum of the
+    padded lens).  full=False: (fixed, records) rotate, except for the 2-byte types where every
+    combination is generated.  Yields (name, File)."""
+    k = 0
+    for fmt in (1, 2, 5):
+        for typ in range(1, 12 if fmt == 5 else 7):
+            for cnt in range(1, 6):
+                combos = [(nf, nr) for nf in (0, 1, 2) for nr in (2, 3, 4)]
+                if not (full or XSZ[typ] == 2):
+                    combos = [combos[(k + typ + cnt) % 9]]
+                for nf, nr in combos:
+                    for ctrl in ((False, True) if (cnt == 3 and nf == 1 and nr == 2) or (XSZ[typ] == 2 and nf == 0 and nr == 3) else (False,)):
+                        k += 1
+                        f = File(fmt)
+                        f.dims = [Dim(b't', 0)] + [Dim(b'c%d' % c, c) for c in range(1, 6)]
+                        f.vars = []
+                        if nf >= 1:
+                            f.vars.append(Var(b'fa', [3], [], 4))
+                        f.vars.append(Var(b'r', [0, cnt], [Att(b'u', 2, 1, b'x')] if k % 2 else [], typ))
+                        if ctrl:
+                            f.vars.append(Var(b'r2', [0, 1 + k % 5], [], 1 + k % 6))
+                        if nf >= 2:
+                            f.vars.append(Var(b'fb', [2, 1], [], 3))
+                        f.hdr_gap = 4 * (k % 3); f.rec_gap = 4 * (k % 2); f.numrecs = nr
+                        if k % 4 == 0:
+                            f.vars[-1].vsize_field = 0xFFFFFFFF
+                        f.layout(rng)
+                        yield ('q%d_t%d_c%d_f%d_n%d%s' % (fmt, typ, cnt, nf, nr, '_2' if ctrl else ''), f)
